@@ -972,6 +972,17 @@ impl InferContext {
 
         // Check for circular type aliases
         self.check_type_alias_cycles(type_aliases);
+
+        // A circular alias has been reported above; bind it to the failure type so that
+        // later alias expansion cannot recurse forever.
+        for (alias_name, target_type) in type_aliases {
+            if Self::detect_type_alias_cycle(*alias_name, type_aliases).is_some() {
+                let failure = Type::Failure.into_id_with_location(target_type.to_loc());
+                self.type_aliases.insert(*alias_name, failure);
+                self.env
+                    .add_bind(&[(*alias_name, (failure, EvalStage::Persistent))]);
+            }
+        }
     }
 
     /// Check for circular references in type aliases
